@@ -8,7 +8,7 @@ TECH = "Lean 4 theorems about a hand-written carrier-polymorphic model; model ti
 # id: (claimed?, what the theorems carry, level_note = what is NOT carried by a theorem / trusted)
 P = {
  "C01": ("E: fold of Variance.add/Mean.add = (n, mean, sum (x-mean)^2) for every list; accessors = textbook variances; permutation invariance. R0: sum_2 >= 0 under any monotone rounding. R2: forward-error bound of the running mean (10.1 n u M) for every stream length.",
-         "The forward-error envelope is proved for mean() only; for the variance family it is measured against the exact rational oracle (DESIGN 5), not proved. R-carrier theorems assume IEEE rounding is monotone / has relative error <= 2^-53 and no overflow. Correspondence Model[Float]=impl is checked on sampled operations, not proved."),
+         "The forward-error envelope is proved (standard model of rounding, no overflow) for mean() and, in C01b, for sum_2 / population_variance / sample_variance of add-only streams (linear in kappa, with an explicit second-order term n^2 u^2 M^2, so the corner n=1e6, kappa=1e12 is covered by the measured envelope only); variance_of_mean and error() follow by one division / square root and are measured. R-carrier theorems assume IEEE rounding is monotone / has relative error <= 2^-53 and no overflow. Correspondence Model[Float]=impl is checked on sampled operations, not proved."),
  "C02": ("E: (canon xs).merge (canon ys) = canon (xs++ys) for Mean..Kurtosis and define_moments! of every order; hence every binary merge tree over every chunking (empty and one-element chunks included) evaluates to canon of the concatenation; total length exact.",
          "R2 (C02b): the forward-error bound of mean() is proved through every merge tree (11 n u M). For the variance family and higher moments the envelope through merges is measured against the exact oracle, not proved. Correspondence checked on enumerated/sampled trees."),
  "C03": ("E/Real: Skewness/Kurtosis folds = canon (n, mean, S2, S3, S4); skewness() = m3/m2^1.5, kurtosis() = m4/m2^2-3 for non-zero spread; re-exported accessors = C01's.",
